@@ -26,7 +26,9 @@ BR = ["(", ")", "[", "]", "{", "}"]
 PAIR = {")": "(", "]": "[", "}": "{"}
 INJECT = ["@", "`", "\\", "/*", "//", "'", '"', "#define X 1\n", "#include <x.h>\n", "#if 1\n", "#error e\n", "#\n", "/* c */", "// c\n",
           "#pragmatic ) ] }\n", "#pragma_once\n", "#pragma2 x\n", "# pragmas x\n", "#lineno 5\n", "#line5\n", "#linemarker\n", "#undef X\n",
-          "#warning w\n", "#ident \"x\"\n", "#elif 0\n", "#endif\n", "#pragma( x\n"]
+          "#warning w\n", "#ident \"x\"\n", "#elif 0\n", "#endif\n", "#pragma( x\n",
+          # characters that Python's str.isspace()/\\s treat as blank but that are neither C white space nor tokens
+          "\xa0", "\x1c", "\x1f", "\x85", "\u2028", "\u2029", "\u3000", "\u2003", "\u1680", "\r", "\x00", "\ufeff", "\u200b"]
 
 
 def balanced(tokens):
